@@ -23,6 +23,8 @@ Record c13_case := mkCase {
   k_fsig : signature;                             (* inspect.signature(f) *)
   k_fasync : bool;                                (* inspect.iscoroutinefunction(f) *)
   k_direct : list (res binding);                  (* f called directly on each call shape *)
+  k_fsig_after : signature;                       (* inspect.signature(f) again, after all the wrapping *)
+  k_fdict_after : pydict nat;                     (* f.__dict__ after all the wrapping *)
   k_levels : list built_obs;                      (* the levels that were built, innermost first *)
   k_fail : option exn;                            (* the error that stopped the stack, if any *)
   k_top_calls : list (option call * res binding)
@@ -61,6 +63,8 @@ Definition agree (k : c13_case) : bool :=
   res_eqb sig_eqb (sig_of f) (Ok (k_fsig k)) &&
   Bool.eqb (f_async f) (k_fasync k) &&
   list_eqb rb_eqb (map (call_func f) (k_calls k)) (k_direct k) &&
+  (* the model is pure: wrapping leaves f as it was *)
+  res_eqb sig_eqb (sig_of f) (Ok (k_fsig_after k)) && dict_equiv (f_dict f) (k_fdict_after k) &&
   let '(gs, e) := run_steps f (k_steps k) in
   forall2b level_agree gs (k_levels k) &&
   option_eqb exn_eqb e (k_fail k) &&
@@ -133,6 +137,8 @@ Definition holds (k : c13_case) : bool :=
   (* the reference binding is Python's: direct calls of f *)
   wf_params (sg_params (k_fsig k)) &&
   list_eqb rb_eqb (map (bind (sg_params (k_fsig k))) (k_calls k)) (k_direct k) &&
+  (* wrapping does not touch the wrapped function *)
+  sig_eqb (k_fsig k) (k_fsig_after k) && dict_equiv (f_dict f) (k_fdict_after k) &&
   match levels_ok f (k_fasync k) (k_fsig k) (f_id f) (k_steps k) (k_levels k) (k_fail k) with
   | None => false
   | Some top =>
